@@ -3,6 +3,7 @@ from __future__ import annotations
 
 import json
 import os
+import zlib
 import re
 import subprocess
 import tempfile
@@ -152,6 +153,30 @@ def gen_inputs(t, sd):
                     else:
                         parts.append(f"{n}={sp['values'][n]}")
                 add(f"mixed-args:{sp['name']}", corpus.HDR + "\n".join(pre) + "\n" + sp["prelude"] + sp["call"].format(args=", ".join(parts)) + "\n")
+    # (ii-e) deep helper chains, every level calling the next one two or three times (work must stay proportional to the text, also when
+    # the leaf's body changes the type the argument is specialised to)
+    for leaf in ('"s" + v', "v * 0.5", "v + 1", 'str(v) + "x"', "[v]", "v and 1"):
+        for depth, calls in ((22, 2), (14, 3)):
+            Lc = [corpus.HDR, f"def f{depth}(v):", f"    return {leaf}", ""]
+            for d in range(depth - 1, -1, -1):
+                Lc += [f"def f{d}(v):", "    return " + " + ".join([f"f{d + 1}(v)"] * calls), ""]
+            add(f"deep-chain:{leaf}", "\n".join(Lc + ["r = f0(1)", "mon.write(r)"]) + "\n")
+            # ... and with every level combining its OWN parameter with the callee's results (the type each level is specialised to
+            # then depends on what the leaf does to its argument)
+            Lc = [corpus.HDR, f"def f{depth}(v):", f"    return {leaf}", ""]
+            for d in range(depth - 1, -1, -1):
+                Lc += [f"def f{d}(v):"] + [f"    a{i} = f{d + 1}(v)" for i in range(calls)] + ["    return " + " + ".join([f"a{i}" for i in range(calls)] + ["v"]), ""]
+            add(f"deep-chain-own-param:{leaf}", "\n".join(Lc + ["r = f0(1)", "mon.write(r)"]) + "\n")
+    # (ii-f) every numeric parameter of the device API on its own with a value that overflows, is infinite or not a number
+    for sp in specs():
+        for vn in sp["values"]:
+            if not sp["values"][vn].replace(".", "", 1).isdigit():
+                continue
+            for bad in ("1e999", "-1e999", "1e308 * 10", "float('inf')", "float('nan')", "10 ** 400", "-(10 ** 400)", "2 ** 63", "0.1 ** 400"):
+                if t == "quick" and (zlib.crc32(f"{sp['name']}|{vn}|{bad}".encode()) + sd) % 3:
+                    continue
+                parts = [f"{n}={(bad if n == vn else sp['values'][n])}" for n in sp["values"]]
+                add(f"numeric-edge:{sp['name']}:{vn}", corpus.HDR + sp["prelude"] + sp["call"].format(args=", ".join(parts)) + "\n")
     # (iii) arbitrary valid Python: the repository's own sources and tests, and mutated copies
     files = sorted((REPO / "src").rglob("*.py")) + sorted((REPO / "tests").rglob("*.py"))
     for f in files:
